@@ -156,10 +156,11 @@ def canon(clause):
     return tuple(sorted(clause))
 
 
-def find_witness(N, F, G, fix_flips=False, fix_vars=False, fix_clauses=False, budget=2000000):
+def find_witness(N, F, G, flips=None, vperm=None, cperm=None, budget=2000000):
     """search a signed renaming (sigma, s) of 1..N and a clause bijection such that every clause of G is the
     image (as a multiset of literals) of the corresponding clause of F.
-    fix_flips: s must be all +1; fix_vars: sigma must be the identity; fix_clauses: clause i -> position i.
+    flips: None (free) or the required list s; vperm: None or the required list sigma (variable v -> vperm[v-1]);
+    cperm: None or the required clause placement (clause i of F at position cperm[i] of G).
     returns ('yes', (sigma, s)) | ('no', None) | ('unknown', None) when the node budget is exhausted."""
     if len(F) != len(G):
         return 'no', None
@@ -171,7 +172,17 @@ def find_witness(N, F, G, fix_flips=False, fix_vars=False, fix_clauses=False, bu
             if not 1 <= abs(l) <= N:
                 return 'no', None
     target = Counter(canon(c) for c in G)
-    Gc = [canon(c) for c in G]
+    fix_clauses = cperm is not None
+    if fix_clauses:
+        if sorted(cperm) != list(range(M)):
+            return 'no', None
+        Gc = [canon(G[cperm[i]]) for i in range(M)]
+    else:
+        Gc = None
+    if flips is not None and (len(flips) != N or any(x not in (1, -1) for x in flips)):
+        return 'no', None
+    if vperm is not None and sorted(vperm) != list(range(1, N + 1)):
+        return 'no', None
 
     # occurrence profile of a literal: multiset of widths of clauses it occurs in (with multiplicity)
     def profiles(cls):
@@ -184,8 +195,8 @@ def find_witness(N, F, G, fix_flips=False, fix_vars=False, fix_clauses=False, bu
 
     def cand(v):
         out = []
-        for w in ([v] if fix_vars else range(1, N + 1)):
-            for sg in ((1,) if fix_flips else (1, -1)):
+        for w in ([vperm[v - 1]] if vperm is not None else range(1, N + 1)):
+            for sg in ((flips[v - 1],) if flips is not None else (1, -1)):
                 if pF.get(v, ()) == pG.get(sg * w, ()) and pF.get(-v, ()) == pG.get(-sg * w, ()):
                     out.append((w, sg))
         return out
